@@ -752,8 +752,11 @@ class introduction(Method):
         cur_item.subproof = pt.export(prefix=id)
         state.check_proof(compute_only=True)
 
-        # Test if the goal is already proved
+        # Test if the goal is already proved (only the remaining gap can be
+        # replaced, not the assumptions or the closing line of the subproof)
         for item in cur_item.subproof.items:
+            if item.rule != 'sorry':
+                continue
             new_id = state.find_goal(state.get_proof_item(item.id).th, item.id)
             if new_id is not None:
                 state.replace_id(item.id, new_id)
